@@ -558,7 +558,7 @@ def replay_metrics(inputs):
 
 def bounded_metrics(tier, seed):
     import numpy as np
-    n = 12 if tier == 'quick' else 300
+    n = 12 if tier == 'quick' else 2000
     st = Stand('C14.metrics.random', f'{n} random unwrapped trajectories (12-40 frames, 2-4 atoms, all lattice families), k in {{0.5,1.7,3}}, s in {{0.5,3}}, z in {{1,-2,3}}, dimensions 1-3',
                'seeded random vs independent numpy formulas; every case non-trivial')
     rng = np.random.default_rng(seed + 1414)
